@@ -411,7 +411,7 @@ void Broker::handle(const ConnPtr& c, BConn& b, const ref::Decoded& d, int cpkt)
         case ref::DISCONNECT:
             b.closed = true;
             if (current_ == c) current_.reset();
-            w_.broker_close(c, false);
+            if (!cfg.linger_after_disconnect) w_.broker_close(c, false);
             break;
         case ref::AUTH: {
             // re-authentication [MQTT 4.12.1]: AUTH 0x19 starts it, the Server answers AUTH 0x18 (challenge) `auth_rounds`
